@@ -2,6 +2,7 @@ package main
 
 import (
 	"encoding/binary"
+	"fmt"
 	"strings"
 
 	"github.com/scionproto/scion/pkg/addr"
@@ -559,7 +560,9 @@ func lengthLie(r *vlib.Rand, raw []byte, lay *layout) ([]byte, string) {
 
 // randomBytes: noise, SCION-looking prefixes, STUN.
 func randomBytes(r *vlib.Rand) ([]byte, string) {
-	switch r.Intn(9) {
+	switch r.Intn(10) {
+	case 9:
+		return stunStructured(r), "stun-structured"
 	case 0:
 		return r.Bytes(r.Intn(40)), "noise-short"
 	case 1:
@@ -633,4 +636,108 @@ func randomBytes(r *vlib.Rand) ([]byte, string) {
 	default:
 		return r.Bytes(r.Range(300, 8600)), "noise-long"
 	}
+}
+
+// ---------------------------------------------------------------------------------------------
+// structured STUN messages
+
+type stunMsg struct {
+	raw  []byte
+	what string
+}
+
+func stunHeader(r *vlib.Rand, typ uint16) []byte {
+	b := make([]byte, 20)
+	binary.BigEndian.PutUint16(b, typ)
+	copy(b[4:], []byte{0x21, 0x12, 0xa4, 0x42})
+	copy(b[8:], r.Bytes(12))
+	return b
+}
+
+func stunAttr(typ uint16, val []byte, padded bool) []byte {
+	a := make([]byte, 4, 4+len(val)+3)
+	binary.BigEndian.PutUint16(a, typ)
+	binary.BigEndian.PutUint16(a[2:], uint16(len(val)))
+	a = append(a, val...)
+	if padded {
+		for len(a)%4 != 0 {
+			a = append(a, 0)
+		}
+	}
+	return a
+}
+
+// stunSweep enumerates binding requests (and a few other types) with 0..2 well-formed leading
+// attributes of every length residue and a last attribute of length 0..9 (fingerprint type and
+// another one) that is cut at every offset: inside its 4-byte header, inside its value and inside
+// its padding; the message length field is honest, or lies (too small, too large, announces the
+// uncut size).
+func stunSweep(r *vlib.Rand) []stunMsg {
+	var out []stunMsg
+	for lead := 0; lead <= 2; lead++ {
+		for leadLen := 0; leadLen < 4; leadLen++ {
+			if lead == 0 && leadLen > 0 {
+				continue
+			}
+			for _, lastTyp := range []uint16{0x8028, 0x8022} {
+				for l := 0; l <= 9; l++ {
+					hdr := stunHeader(r, 1)
+					body := []byte{}
+					for k := 0; k < lead; k++ {
+						body = append(body, stunAttr(uint16(0x8000+k), r.Bytes(leadLen+4*k), true)...)
+					}
+					last := stunAttr(lastTyp, r.Bytes(l), true)
+					for cut := 0; cut <= len(last); cut++ {
+						full := append(append([]byte(nil), body...), last[:cut]...)
+						uncut := len(body) + len(last)
+						for _, ml := range []int{len(full), uncut, len(full) + 4, 0} {
+							if ml != len(full) && (cut+l+lead)%3 != 0 {
+								continue // lying lengths on a third of the cases
+							}
+							m := append(append([]byte(nil), hdr...), full...)
+							binary.BigEndian.PutUint16(m[2:], uint16(ml))
+							out = append(out, stunMsg{m, fmt.Sprintf("stun-sweep lead=%d/%d last=%#x len=%d cut=%d/%d msglen=%d",
+								lead, leadLen, lastTyp, l, cut, len(last), ml)})
+						}
+					}
+				}
+			}
+		}
+	}
+	// the same final attributes behind other message types / flag bits
+	for _, typ := range []uint16{0x0101, 0x0111, 0x0002, 0x4001, 0x8001} {
+		for l := 1; l <= 3; l++ {
+			last := stunAttr(0x8022, r.Bytes(l), false)
+			m := append(stunHeader(r, typ), last...)
+			binary.BigEndian.PutUint16(m[2:], uint16(len(last)))
+			out = append(out, stunMsg{m, fmt.Sprintf("stun-sweep type=%#x unpadded len=%d", typ, l)})
+		}
+	}
+	return out
+}
+
+// stunStructured is a random member of the same family with longer chains.
+func stunStructured(r *vlib.Rand) []byte {
+	typ := uint16(1)
+	if r.Chance(10) {
+		typ = uint16(r.Intn(1 << 14))
+	}
+	m := stunHeader(r, typ)
+	n := r.Intn(6)
+	for k := 0; k < n; k++ {
+		t := uint16(r.Intn(1 << 16))
+		if r.Chance(30) {
+			t = 0x8028
+		}
+		m = append(m, stunAttr(t, r.Bytes(r.Intn(14)), k < n-1 || r.Chance(40))...)
+	}
+	if n > 0 && r.Chance(40) {
+		m = m[:len(m)-r.Intn(min(8, len(m)-20)+1)]
+	}
+	ml := len(m) - 20
+	if r.Chance(25) {
+		ml += r.Intn(9) - 4
+	}
+	binary.BigEndian.PutUint16(m[2:], uint16(ml))
+	return m
 }
